@@ -26,7 +26,10 @@ RULE = ('exhaustive enumeration: format (fistr, fistr msh-only, ucd, obj, stl, v
         '(bare stem, stem+ext, stem ending in the ext letters, other ext, existing sub-directory, nested not-yet-existing '
         'directory) x every subset of the files the writer may touch (name as typed, final name, .msh, .cnt, '
         'hecmw_ctrl.dat, <final>.bak) x overwrite in {False, True}; a case is non-trivial when at least one candidate '
-        'file pre-exists or the call creates a file; distinct = distinct (format, spelling, subset, overwrite)')
+        'file pre-exists or the call creates a file; distinct = distinct (format, spelling, subset, overwrite). Oracle-only streams: rich '
+        'object, default target name, pre-existing files with realistic content, exotic spellings, and KINDS of pre-existing file '
+        '(empty = the mkstemp / touch placeholder, one newline, binary, a symbolic link to a file elsewhere whose target is part of '
+        'the byte-for-byte snapshot)')
 ASSUMPTIONS = [
     'stl / tvtk are not installed: their file encoders are replaced by stubs that create the requested file '
     '(femio\'s own naming / pre-check / post-processing code runs unchanged)',
@@ -207,7 +210,14 @@ def run_real(ctx, fd, fmt, msh_only, name, mkdirs, present, overwrite, prepare=N
         (root / d).mkdir(parents=True)
     for p in present:
         (root / p).parent.mkdir(parents=True, exist_ok=True)
-        (root / p).write_bytes(content[p] if content and p in content else b'OLD:' + p.encode())
+        c = content[p] if content and p in content else b'OLD:' + p.encode()
+        if isinstance(c, tuple):     # ('symlink', <target relative to the work directory>, <bytes of the target>)
+            tgt = root / c[1]
+            tgt.parent.mkdir(parents=True, exist_ok=True)
+            tgt.write_bytes(c[2])
+            os.symlink(os.path.relpath(tgt, (root / p).parent), root / p)
+        else:
+            (root / p).write_bytes(c)
     if prepare is not None:
         fd = prepare(root)
     before = snapshot(root)
@@ -346,6 +356,19 @@ def _oracle(ctx, sig_prefix, fmt, name, case, err, before, after):
                      case, {'path': p, 'raised': err, 'deleted': p not in after})
 
 
+FILE_KINDS = ['empty', 'newline', 'binary', 'symlink']
+
+
+def file_kind_content(kind, p):
+    if kind == 'empty':
+        return b''
+    if kind == 'newline':
+        return b'\n'
+    if kind == 'binary':
+        return bytes(range(256)) * 3
+    return ('symlink', 'elsewhere/' + p.replace('/', '__') + '.target', b'TARGET-OF-LINK:' + p.encode())
+
+
 def oracle_only_stream(ctx):
     """inputs the model is not run on (the theorems do not depend on the object written; the correspondence above is
     made with one object): (a) a richer object - mixed mesh, nodal + elemental variables, groups - so that every data
@@ -431,6 +454,28 @@ def oracle_only_stream(ctx):
                     ctx.case(('exotic', fmt, msh_only, name, tuple(present)), sample={**case, 'raised': err}, nontrivial=True)
                     ctx.count(f'oracle-only:spelling:{sclass}:' + (err or 'ok'))
                     _oracle(ctx, 'spelling:' + sclass, fmt, name, case, err, before, after)
+    # (a''') KINDS of pre-existing file (round 6, seeded C07-11): a file "exists" whatever it holds - empty (the
+    #        tempfile.mkstemp / touch placeholder pattern), one newline, binary garbage, or a symbolic link to a file that lives
+    #        elsewhere (the snapshot covers the link target: writing through the link changes an existing file too)
+    for fmt, msh_only in FORMATS:
+        for sclass, name, mkdirs in spellings(fmt)[:2]:
+            cand, _ = candidates(fmt, name)
+            try:
+                for q in discover(ctx, fd0, fmt, msh_only, name, mkdirs or []):
+                    if q not in cand and len(cand) < 6:
+                        cand.append(q)
+            except Exception:
+                pass
+            for kind in FILE_KINDS:
+                subsets = [(c,) for c in cand] + [tuple(cand)]
+                for present in subsets:
+                    content = {q: file_kind_content(kind, q) for q in present}
+                    err, before, after = run_real(ctx, fd0, fmt, msh_only, name, mkdirs, list(present), False, content=content)
+                    case = {'stream': 'file-kind', 'file_kind': kind, 'format': fmt, 'write_msh_only': msh_only, 'spelling': sclass,
+                            'name': name, 'pre_existing': list(present), 'overwrite': False}
+                    ctx.case(('file-kind', kind, fmt, msh_only, name, tuple(present)), sample={**case, 'raised': err}, nontrivial=True)
+                    ctx.count(f'oracle-only:file-kind:{kind}:' + (err or 'ok'))
+                    _oracle(ctx, 'file-kind:' + kind, fmt, name, case, err, before, after)
     # (b) default name
     def prepare(root):
         (root / 'in').mkdir(exist_ok=True)
@@ -474,6 +519,8 @@ def replay(ctx, obj):
         early = earlier_outputs(ctx, fd, case['format'], case['write_msh_only'], case['name'], mk,
                                 '' if stream == 'earlier-output-edited' else 'fine_')
         content = {q: b + (b'\n# edited by hand\n' if stream == 'earlier-output-edited' else b'') for q, b in early.items()}
+    if stream == 'file-kind':
+        content = {q: file_kind_content(case['file_kind'], q) for q in case['pre_existing']}
     err, before, after = run_real(ctx, fd, case['format'], case['write_msh_only'], case['name'],
                                   mk, case['pre_existing'], case['overwrite'], content=content)
     changed = [p for p, b in before.items() if after.get(p) != b]
